@@ -23,7 +23,7 @@ from vmon.props.c11 import solo_result
 
 LEVEL = "exploration"
 SHARDS = {"quick": 16, "thorough": 16}
-MUST = ["spelling.styles", "trivia.comment", "trivia.pi", "trivia.whitespace", "trivia.paths_probed", "special_names.loads", "load.forms_rotated", "load.form.str-path", "load.form.Path", "load.form.open-file", "load.form.load_xml-or-stream", "layout.one-line", "layout.crlf", "layout.blank-lines", "layout.tabs", "layout.no-indent", "layout.entities", "history.runs", "history.failed_prior_loads",
+MUST = ["spelling.styles", "trivia.comment", "trivia.pi", "trivia.whitespace", "trivia.paths_probed", "special_names.loads", "load.forms_rotated", "load.form.str-path", "load.form.Path", "load.form.open-file", "load.form.load_xml-or-stream", "layout.one-line", "layout.crlf", "layout.blank-lines", "layout.tabs", "layout.no-indent", "layout.entities", "history.runs", "history.directed_pairs", "history.failed_prior_loads",
         "history.style_changes", "baseline.fresh_process", "path.ContextCalibratorList", "path.BaseContainer", "path.EntryList", "path.ComparisonList"]
 RULE = ("case = (document IR, rendering = namespace convention x trivia placement, history of prior loads); fingerprint "
         "(canonical written XML + decode of steered packets) must equal the baseline. Renderings: 15 namespace conventions; inter-element whitespace layouts "
@@ -186,8 +186,80 @@ def bad_inputs(rng, doc):
     return out
 
 
+def directed_pairs():
+    """hand-built document pairs that share exactly those things a process-wide cache could be keyed on: identical encoding
+    elements, container / type / parameter names (with different content behind them)"""
+    from space_packet_parser import packets as P
+    from vmon.props.c05 import header_types
+    ts, ps = header_types("PKT_APID")
+    hdr = tuple(("p", p.name) for p in ps[:7])
+    pairs = []
+    # 1/2: a time type with scale/offset over an encoding element that the other document uses for a plain parameter
+    for nm, enc in (("float32", ir.FloatEnc(32, "IEEE754", False)), ("uint16", ir.IntEnc(16, "unsigned"))):
+        a = ir.Doc(tuple(ts) + (ir.PType("T_T", "abstime", enc, "s", scale=0.5, offset=10.0),), tuple(ps) + (ir.Param("T", "T_T"),),
+                   (ir.Container("CCSDSPacket", hdr + (("p", "T"),)),))
+        b = ir.Doc(tuple(ts) + (ir.PType("V_T", "float" if nm == "float32" else "integer", enc),), tuple(ps) + (ir.Param("V", "V_T"),),
+                   (ir.Container("CCSDSPacket", hdr + (("p", "V"),)),))
+        pairs.append((f"time-type-over-identical-{nm}-encoding", a, b, bytes(P.create_ccsds_packet(b"\x3f\xc0\x00\x00" if nm == "float32" else b"\x12\x34"))))
+    # 3: same container / parameter-type / parameter NAMES with different content; both list an inheriting container before its
+    #    base, and the base embeds the same-named container
+    docs = []
+    for width, twice in ((8, False), (16, True)):
+        xt = ir.PType("X_T", "integer", ir.IntEnc(width, "unsigned"))
+        docs.append(ir.Doc(tuple(ts) + (xt,), tuple(ps) + (ir.Param("X", "X_T"), ir.Param("VERSION2", "VERSION_Type")),
+                           (ir.Container("Leaf", (("p", "VERSION2"),), "Base", (ir.Comparison("VERSION", "0"),)),
+                            ir.Container("Base", (("c", "Inner"),), "CCSDSPacket", (ir.Comparison("TYPE", "0"),)),
+                            ir.Container("CCSDSPacket", hdr), ir.Container("Inner", (("p", "X"),) * (2 if twice else 1)))))
+    pairs.append(("same-names-different-content", docs[0], docs[1], bytes(P.create_ccsds_packet(b"\xab\xcd\x05"))))
+    return pairs
+
+
+def directed_fresh(k, role):
+    """run in a child process: document `role` (0/1) of directed pair k is the FIRST thing loaded"""
+    name, a, b, raw = directed_pairs()[k]
+    d = (a, b)[role]
+    return load_fp(render.render_doc(d), ("prefix", "xtce"), d, [raw])
+
+
+def directed_histories(ctx):
+    """each directed pair: A, (a variant of A that fails half-way through its ContainerSet), B, A, B in rotating conventions; every
+    load's fingerprint is compared with the fingerprint the same document has when it is the first thing a fresh process loads."""
+    import dataclasses
+    from vmon.core import HarnessError
+    for k, (name, a, b, raw) in enumerate(directed_pairs()):
+        fresh = []
+        for role in (0, 1):
+            p = subprocess.run([sys.executable, "-m", "vmon.props.c16", "directed", str(k), str(role)], capture_output=True, text=True, timeout=600)
+            if p.returncode != 0:
+                raise HarnessError("directed baseline child failed: " + p.stderr[-600:])
+            fresh.append(tuple(json.loads(p.stdout.strip().splitlines()[-1])))
+            ctx.count("baseline.fresh_process")
+            if fresh[-1][0] != "ok":
+                ctx.violation(f"baseline/{fresh[-1][0]}/{fresh[-1][1]}", f"directed document '{name}'[{role}] does not load in a fresh process: {fresh[-1][:3]}", {"pair": name})
+        if any(f[0] != "ok" for f in fresh):
+            continue
+        styles = (("prefix", "xtce"), ("default",), ("none",), ("prefix", "p"))
+        for step, role in enumerate((0, 1, 0, 1, 1, 0)):
+            style = styles[(step + k) % 4]
+            d = (a, b)[role]
+            if step == 1:
+                bad = dataclasses.replace(a, containers=a.containers + (ir.Container("ZZ", (("p", "NoSuchParameter"),)),))
+                monitored(load_definition, render.render_doc(bad, ns_style=style), prefix_of(style))
+            got = load_fp(render.render_doc(d, ns_style=style), style, d, [raw])
+            ctx.count("evaluations")
+            ctx.count("history.directed_pairs")
+            ctx.sig("history", "directed", name, step, style[0])
+            if got != fresh[role]:
+                ctx.violation(f"history/directed/{name}/{got[0]}{'/' + got[1] if got[0] != 'ok' else ''}",
+                              f"'{name}': document {role} loaded at step {step} of the history A,B,A,B,B,A gives {got[:3]}, in a fresh process {fresh[role][:2]}",
+                              {"pair": name, "style": style, "step": step})
+                break
+
+
 def run(ctx):
     import random
+    if ctx.shard % 4 == 1:
+        directed_histories(ctx)        # first thing in this worker process, before anything else has been loaded
     states = set()
     ids = [i for i in range(ctx.size(48, 2000)) if ctx.mine(i)]
     probed_paths = set()
@@ -354,4 +426,7 @@ def special_names(ctx):
 
 
 if __name__ == "__main__":
-    print(json.dumps(baseline_fresh(int(sys.argv[1]), int(sys.argv[2]))))
+    if sys.argv[1] == "directed":
+        print(json.dumps(directed_fresh(int(sys.argv[2]), int(sys.argv[3]))))
+    else:
+        print(json.dumps(baseline_fresh(int(sys.argv[1]), int(sys.argv[2]))))
